@@ -42,7 +42,7 @@ func ReturnCases(fn *ssa.Function) []RetCase {
 		if len(ret.Block().Preds) == 0 && ret.Block() != fn.Blocks[0] {
 			continue // unreachable (recover block)
 		}
-		for _, c := range spilledCases(ret) {
+		for _, c := range resolveLoads(spilledCases(ret)) {
 			c.addGuards(ret.Block())
 			if c.At != nil && c.At != ret.Block() {
 				c.addGuards(c.At)
@@ -244,4 +244,59 @@ func expandPhis(c RetCase, depth int) []RetCase {
 		return []RetCase{c}
 	}
 	return out
+}
+
+
+// resolveLoads replaces values that are loads of a local variable by what was
+// stored there (`err = f(); return err` with a spilled result reads the local
+// back before storing it again); several reaching stores split the case.
+func resolveLoads(cases []RetCase) []RetCase {
+	for round := 0; round < 4; round++ {
+		var out []RetCase
+		changed := false
+		for _, c := range cases {
+			split := false
+			for i, v := range c.Vals {
+				u, ok := v.(*ssa.UnOp)
+				if !ok || u.Op != token.MUL {
+					continue
+				}
+				a, ok := u.X.(*ssa.Alloc)
+				if !ok {
+					continue
+				}
+				stores := ReachingStores(a, u)
+				if len(stores) == 0 || len(stores) > 8 {
+					continue
+				}
+				same := false
+				for _, s := range stores {
+					if s == v {
+						same = true
+					}
+				}
+				if same {
+					continue
+				}
+				for _, s := range stores {
+					nc := RetCase{Ret: c.Ret, Vals: append([]ssa.Value{}, c.Vals...), At: c.At, Guards: c.Guards}
+					nc.Vals[i] = s
+					if in, ok := s.(ssa.Instruction); ok && len(stores) > 1 && in.Block() != nil {
+						nc.At = in.Block()
+					}
+					out = append(out, nc)
+				}
+				split, changed = true, true
+				break
+			}
+			if !split {
+				out = append(out, c)
+			}
+		}
+		cases = out
+		if !changed || len(cases) > 256 {
+			break
+		}
+	}
+	return cases
 }
